@@ -651,6 +651,8 @@ namespace occa {
 
   primitive primitive::div(const primitive &a, const primitive &b) {
     const int retType = (a.type > b.type) ? a.type : b.type;
+    OCCA_ERROR("Cannot apply operator / with a zero integer divisor",
+               (retType & primitiveType::isFloat) || b.to<uint64_t>());
     switch(retType) {
       case primitiveType::bool_   : return primitive(a.to<bool>()     / b.to<bool>());
       case primitiveType::int8_   : return primitive(a.to<int8_t>()   / b.to<int8_t>());
@@ -670,6 +672,8 @@ namespace occa {
 
   primitive primitive::mod(const primitive &a, const primitive &b) {
     const int retType = (a.type > b.type) ? a.type : b.type;
+    OCCA_ERROR("Cannot apply operator % with a zero integer divisor",
+               (retType & primitiveType::isFloat) || b.to<uint64_t>());
     switch(retType) {
       case primitiveType::bool_   : return primitive(a.to<bool>()     % b.to<bool>());
       case primitiveType::int8_   : return primitive(a.to<int8_t>()   % b.to<int8_t>());
@@ -851,6 +855,8 @@ namespace occa {
 
   primitive& primitive::divEq(primitive &a, const primitive &b) {
     const int retType = (a.type > b.type) ? a.type : b.type;
+    OCCA_ERROR("Cannot apply operator /= with a zero integer divisor",
+               (retType & primitiveType::isFloat) || b.to<uint64_t>());
     switch(retType) {
       case primitiveType::bool_   : a = (a.to<bool>()     / b.to<bool>());     break;
       case primitiveType::int8_   : a = (a.to<int8_t>()   / b.to<int8_t>());   break;
@@ -870,6 +876,8 @@ namespace occa {
 
   primitive& primitive::modEq(primitive &a, const primitive &b) {
     const int retType = (a.type > b.type) ? a.type : b.type;
+    OCCA_ERROR("Cannot apply operator %= with a zero integer divisor",
+               (retType & primitiveType::isFloat) || b.to<uint64_t>());
     switch(retType) {
       case primitiveType::bool_   : a = (a.to<bool>()     % b.to<bool>());     break;
       case primitiveType::int8_   : a = (a.to<int8_t>()   % b.to<int8_t>());   break;
